@@ -63,7 +63,10 @@ claim("C20",
       "Lean 4 proof (first-occurrence lemma for the nearest-element lookup) + exhaustive differential correspondence", "DESIGN.md section 5, C20")
 claim("C16",
       "GFO.C16.diag_covers / orth_covers: for EVERY tuple of dimension sizes, every step_size dividing |S| and both directions the first |S| iteration steps are positions of the box and pairwise distinct "
-      "(mixed-radix decoders injective, closed forms of both pointer machines, coprime stride from get_direction). Backend-level correspondence of pos_l with the model, exhaustive over shapes with sizes 1-6 in 1-4 dims, all dividing step sizes, both directions, plus large 2-d shapes.",
+      "(mixed-radix decoders injective, closed forms of both pointer machines, coprime stride from get_direction). "
+      "GFO.GridRuns.C16_grid_run_positions / C16_grid_run_enumerates carry this through the WHOLE optimizer: the complete model of GridSearchOptimizer (GFO.Model.GridBackend: outer and inner object, pointer machine, decoder, conv2pos, constraint check, both trackers) "
+      "run by the driver model on a fresh unconstrained optimizer emits, after its start-up positions, exactly diagPos/orthPos j for every j < |S| the call reaches - any objective, call arguments, stopping criteria - hence pairwise distinct positions of the space; "
+      "the complete model is run against the real GridSearchOptimizer (with and without constraints, dividing and non-dividing step sizes, several calls) on the recorded verdict tape. Backend-level correspondence of pos_l with the model, exhaustive over shapes with sizes 1-6 in 1-4 dims, all dividing step sizes, both directions, plus large 2-d shapes.",
       "Without constraints, as the property states. Orthogonal int(x/|S|) is float division: exact below 2^53.",
       "Lean 4 proof (Nat.ModEq arithmetic, induction on the pointer machine) + exhaustive differential correspondence", "DESIGN.md section 5, C16")
 claim("C01",
